@@ -1245,3 +1245,72 @@ func ruleR134(c *Ctx) {
 		c.Undecided("funcGen#map-branch-of-method-call", token.NoPos, "the closure-field branch of the generated method call was not found")
 	}
 }
+
+// ---------------------------------------------------------------------------
+// R13.5 kind tables have no hole below a kind they handle
+//
+// A switch over reflect.Kind that wraps struct fields as map entries decides
+// which fields exist in the map at all. If it handles the native int (at least
+// 32 bits wide) it has to handle every narrower signed kind as well - a field
+// of kind int32 (or rune) is otherwise silently missing from the map although
+// an int field is there; likewise float32 where float64 is handled. A case
+// list that was rewritten from a fallthrough chain and lost one entry is the
+// typical way to get there.
+
+func ruleR135(c *Ctx) {
+	n := 0
+	for _, pkg := range c.RepoPkgs {
+		info := pkg.TypesInfo
+		forEachFuncBody([]*packages.Package{pkg}, func(_ *packages.Package, fn ast.Node, body *ast.BlockStmt) {
+			k := 0
+			inspectNoLit(body, func(x ast.Node) bool {
+				sw, ok := x.(*ast.SwitchStmt)
+				if !ok || sw.Tag == nil {
+					return true
+				}
+				if !isNamed(info.TypeOf(sw.Tag), "reflect", "Kind") {
+					return true
+				}
+				handled := map[string]bool{}
+				for _, cl := range sw.Body.List {
+					for _, e := range cl.(*ast.CaseClause).List {
+						if sel, ok := ast.Unparen(e).(*ast.SelectorExpr); ok {
+							handled[sel.Sel.Name] = true
+						}
+					}
+				}
+				k++
+				n++
+				key := fmt.Sprintf("%s#kind-table[%d]", c.FuncName(fn)+litSuffix(c, fn), k)
+				var missing []string
+				for _, dep := range [][]string{{"Int", "Int8", "Int16", "Int32"}, {"Int64", "Int8", "Int16", "Int32"}, {"Int32", "Int8", "Int16"}, {"Int16", "Int8"}, {"Uint", "Uint8", "Uint16", "Uint32"}, {"Uint64", "Uint8", "Uint16", "Uint32"}, {"Uint32", "Uint8", "Uint16"}, {"Uint16", "Uint8"}, {"Float64", "Float32"}} {
+					if !handled[dep[0]] {
+						continue
+					}
+					for _, need := range dep[1:] {
+						if !handled[need] {
+							dup := false
+							for _, m := range missing {
+								if m == need {
+									dup = true
+								}
+							}
+							if !dup {
+								missing = append(missing, need)
+							}
+						}
+					}
+				}
+				if len(missing) == 0 {
+					c.OK(key, sw.Pos(), "every kind narrower than a handled kind of the same family is handled as well")
+				} else {
+					c.Violation(key, sw.Pos(), "the kind table handles a wider kind of the family but not %s: a struct field of that kind (rune is int32) is silently left out of the wrapped map, which then has fewer keys than the value it stands for - member access, size, list, equality all miss it", strings.Join(missing, ", "))
+				}
+				return true
+			})
+		})
+	}
+	if n < 1 {
+		c.Undecided("value#kind-tables", token.NoPos, "no switch over reflect.Kind found")
+	}
+}
